@@ -18,7 +18,9 @@ import (
 	"fmt"
 	"math/rand"
 	"os"
+	"runtime"
 	"strings"
+	"sync"
 	"time"
 
 	dh "github.com/hashicorp/consul/verifharness/internal/discoh"
@@ -33,7 +35,10 @@ type event struct {
 	Res  interface{} `json:"res"`
 }
 
+// recorder is shared by the workers: events are self-contained (they carry h and k), so their
+// order in the file does not matter.
 type recorder struct {
+	mu     sync.Mutex
 	w      *bufio.Writer
 	events int
 }
@@ -43,9 +48,38 @@ func (r *recorder) emit(ev event) {
 	if err != nil {
 		fatal("marshal: %v", err)
 	}
+	r.mu.Lock()
 	r.w.Write(b)
 	r.w.WriteByte('\n')
 	r.events++
+	r.mu.Unlock()
+}
+
+// parallel runs fn(0..n-1) on a few workers (behaviours share nothing: one store each).
+func parallel(n int, fn func(i int)) {
+	workers := runtime.NumCPU() / 2
+	if workers < 1 {
+		workers = 1
+	}
+	if workers > 8 {
+		workers = 8
+	}
+	var wg sync.WaitGroup
+	next := make(chan int)
+	for w := 0; w < workers; w++ {
+		wg.Add(1)
+		go func() {
+			defer wg.Done()
+			for i := range next {
+				fn(i)
+			}
+		}()
+	}
+	for i := 0; i < n; i++ {
+		next <- i
+	}
+	close(next)
+	wg.Wait()
 }
 
 func fatal(f string, a ...interface{}) {
@@ -131,6 +165,7 @@ func (r *runner) stepC(c *dh.Cmd, silent bool) (accepted bool, class string) {
 		r.rec.emit(event{H: r.hi, K: r.k, Cmd: c, Pre: pre, Post: post, Res: res})
 	}
 	if hung {
+		r.rec.mu.Lock() // never released: nothing is written after the hung event
 		r.rec.w.Flush()
 		fmt.Printf("{\"behaviours\":%d,\"events\":%d,\"hung\":true}\n", r.hi+1, r.rec.events)
 		os.Exit(3)
@@ -206,7 +241,8 @@ func replay(in, out string, auto, lastonly bool, svcs []string, reps int, seed i
 	}
 	defer f.Close()
 	rec := &recorder{w: bufio.NewWriterSize(f, 1<<20)}
-	for hi, beh := range behs {
+	parallel(len(behs), func(hi int) {
+		beh := behs[hi]
 		h, err := dh.New()
 		if err != nil {
 			fatal("new store: %v", err)
@@ -225,7 +261,7 @@ func replay(in, out string, auto, lastonly bool, svcs []string, reps int, seed i
 				r.compileProposed(c, svcs)
 			}
 		}
-	}
+	})
 	rec.w.Flush()
 	fmt.Printf("{\"behaviours\":%d,\"events\":%d,\"hung\":false}\n", len(behs), rec.events)
 }
@@ -404,7 +440,7 @@ func random(seed int64, n, length int, out string, reps int) {
 	}
 	defer f.Close()
 	rec := &recorder{w: bufio.NewWriterSize(f, 1<<20)}
-	for t := 0; t < n; t++ {
+	parallel(n, func(t int) {
 		h, err := dh.New()
 		if err != nil {
 			fatal("new store: %v", err)
@@ -443,7 +479,7 @@ func random(seed int64, n, length int, out string, reps int) {
 			y := rc
 			r.step(&dh.Cmd{T: "compile", Svc: g.pick(rSvcs), Ctx: &y, Src: "store"}, false)
 		}
-	}
+	})
 	rec.w.Flush()
 	fmt.Printf("{\"behaviours\":%d,\"events\":%d,\"hung\":false}\n", n, rec.events)
 }
